@@ -91,6 +91,9 @@ def eval_str(e: ast.expr, env: dict[str, list], alias: dict[str, ast.expr]) -> l
                     spec = norm(v.format_spec)
                 if isinstance(v.value, ast.Name) and v.value.id in env and not conv and spec is None:
                     out.extend(env[v.value.id])
+                elif not conv and spec is None and (isinstance(v.value, ast.JoinedStr) or (
+                        isinstance(v.value, ast.BinOp) and isinstance(v.value.op, ast.Add) and is_strish(v.value, env))):
+                    out.extend(eval_str(v.value, env, alias))  # nested f-string / concatenation (an inlined intermediate)
                 else:
                     out.append(Dyn(subst(v.value, alias), conv, spec, v))
         return out
